@@ -100,9 +100,9 @@ func TestScratchGen(t *testing.T) {
 }
 
 func TestScratchTime(t *testing.T) {
-	for _, cls := range []int{3, 8, 9} {
+	for _, cls := range []int{8} {
 		var tot, max time.Duration
-		for i := 0; i < 32; i++ {
+		for i := 0; i < 16; i++ {
 			idx := cls + 10*i
 			e := &vlib.Env{Prop: "C16", Tier: "quick", Seed: 1, Idx: idx, R: vlib.NewRand(1, "C16", idx)}
 			t0 := time.Now()
@@ -117,5 +117,41 @@ func TestScratchTime(t *testing.T) {
 			}
 		}
 		fmt.Println("class", cls, "total", tot, "max", max)
+	}
+}
+
+func TestScratchKinds(t *testing.T) {
+	r := vlib.NewRand(1, "C16", 8)
+	type agg struct{ n int; gen, rt time.Duration; bytes int }
+	m := map[string]*agg{}
+	mar := cqrs.ProtoMarshaler{}
+	do := func(kind string, f func() val) {
+		t0 := time.Now()
+		v := f()
+		t1 := time.Now()
+		msg, _ := mar.Marshal(v.v)
+		for i := 0; i < 4; i++ {
+			out := v.fresh()
+			mar.Unmarshal(msg, out)
+			if !v.equal(v.v, out) { panic("x") }
+		}
+		t2 := time.Now()
+		a := m[kind]
+		if a == nil { a = &agg{}; m[kind] = a }
+		a.n++; a.gen += t1.Sub(t0); a.rt += t2.Sub(t1); a.bytes += len(msg.Payload)
+	}
+	for i := 0; i < 300; i++ {
+		do("event", func() val { return genSchemaOfType(r, &c16pb.Event{}, 3) })
+		do("legacy", func() val { return genSchemaOfType(r, &c16pb.Legacy{}, 3) })
+		do("richer", func() val { return genFromRicher(r) })
+		do("wkt", func() val { return genSchemaOfType(r, schemaWKTs[r.Intn(len(schemaWKTs))], 3) })
+		do("desc", func() val { return genSchemaOfType(r, schemaDescTypes[r.Intn(len(schemaDescTypes))], 3) })
+		do("real", func() val { return genRealDescriptor(r) })
+		do("str", func() val { return schemaStrVal(r, genStr(r)) })
+		do("sized", func() val { return schemaSized(r, 4000) })
+		if i%10 == 0 { do("large", func() val { return genLargeSchemaVal(r) }) }
+	}
+	for k, a := range m {
+		fmt.Printf("%-8s n=%d gen=%v/val rt=%v/val bytes=%d\n", k, a.n, a.gen/time.Duration(a.n), a.rt/time.Duration(a.n), a.bytes/a.n)
 	}
 }
